@@ -1,6 +1,7 @@
 package vaxis
 
 import (
+	"bufio"
 	"fmt"
 	"strings"
 
@@ -25,7 +26,10 @@ type Cell struct {
 // window, you should either properly measure the graphemes based on your
 // terminals capabilities or set the widths to 0 to enable vaxis to measure them
 func ParseStyledString(s string) []Cell {
-	r := strings.NewReader(s)
+	// The parser joins a grapheme cluster only from what its reader has
+	// buffered. Buffer the whole string, or a cluster that straddles the
+	// default 4096 byte buffer comes back as two cells
+	r := bufio.NewReaderSize(strings.NewReader(s), len(s))
 	parser := ansi.NewParser(r)
 	defer parser.Close()
 	cells := make([]Cell, 0, len(s)/2) // best effort
